@@ -360,23 +360,24 @@ fn buildable(want: &ST, params: &[ST], cx: &Cx) -> Option<ST> {
 /// Expressions whose types, unified (as the payloads of several `accept`
 /// statements of one filtermap are), give exactly the payload type `t`.
 /// Empty: nothing can be written (`Result[?, ?]`).
-fn exprs_of(t: &ST, params: &[ST]) -> Vec<String> {
+fn exprs_of(t: &ST, params: &[ST], neg: bool) -> Vec<String> {
     if let Some(i) = params.iter().position(|q| q == t) {
         return vec![format!("p{i}")];
     }
     let wrap = |t: &ST, l: &str, r: &str| -> Vec<String> {
-        exprs_of(t, params).into_iter().map(|e| format!("{l}{e}{r}")).collect()
+        exprs_of(t, params, neg).into_iter().map(|e| format!("{l}{e}{r}")).collect()
     };
     match t {
-        ST::IntLit => vec!["70000".into()],
-        ST::FloatLit => vec!["0.5".into()],
+        // a negated literal is an integer variable that must be signed: still `i32`
+        ST::IntLit => vec![if neg { "-70000".into() } else { "70000".into() }],
+        ST::FloatLit => vec![if neg { "-0.5".into() } else { "0.5".into() }],
         ST::Unit => vec!["()".into()],
         ST::Opt(x) if **x == ST::Hole => vec!["None".into()],
         ST::Opt(x) => wrap(x, "Some(", ")"),
         ST::List(x) if **x == ST::Hole => vec!["[]".into()],
         ST::List(x) => {
             // the elements of a list literal are unified with each other
-            let es = exprs_of(x, params);
+            let es = exprs_of(x, params, neg);
             if es.is_empty() { vec![] } else { vec![format!("[{}]", es.join(", "))] }
         }
         ST::Res(a, b) => {
@@ -401,6 +402,7 @@ fn exprs_of(t: &ST, params: &[ST]) -> Vec<String> {
 /// `Some(70000)` becomes `None`, `[[0.5]]` becomes `[[]]`, `Ok(1)`+`Err(0.5)`
 /// loses one of the two. `None` if `t` has no constructor.
 fn with_hole(t: &ST, params: &[ST], p: &mut Prng) -> Option<ST> {
+    let neg = false;
     let spots = t.count_nodes();
     for _ in 0..8 {
         let mut k = 1 + p.below(spots.max(2) as u64 - 1) as usize;
@@ -408,7 +410,7 @@ fn with_hole(t: &ST, params: &[ST], p: &mut Prng) -> Option<ST> {
             continue;
         }
         let t2 = t.rewrite(&mut k, &mut |_x: &ST| ST::Hole);
-        if t2 != *t && !exprs_of(&t2, params).is_empty() {
+        if t2 != *t && !exprs_of(&t2, params, neg).is_empty() {
             return Some(t2);
         }
     }
@@ -560,7 +562,9 @@ impl Decl {
                         Side::FloatLit => vec![format!("{kw} 1.5")],
                         Side::Built(t) => {
                             let ps: &[ST] = if cx.shadow.is_empty() { &self.params } else { &[] };
-                            exprs_of(t, ps).into_iter().map(|e| format!("{kw} {e}")).collect()
+                            // every third filtermap writes its literals negated
+                            let neg = self.name[1..].parse::<usize>().is_ok_and(|n| n % 3 == 2);
+                            exprs_of(t, ps, neg).into_iter().map(|e| format!("{kw} {e}")).collect()
                         }
                     }
                 };
@@ -1479,6 +1483,244 @@ fn minimise_history(fam: &[Entry], rt: &Runtime<NoCtx>, src: &str, log: &[Req], 
     (log[..k].to_vec(), "whole-prefix")
 }
 
+// ------------------------------------------------ the process as a state
+
+/// One request made earlier in this worker process: (script index, name,
+/// family entry, answer). `get_function` consults the process-wide
+/// `TypeRegistry`, so what a process asked before — on *any* package — is
+/// state a wrong answer may depend on; a replay has to start from a fresh
+/// process and carry the part of that history that matters.
+type ProcReq = (u64, String, usize, String);
+
+/// What the worker knows about itself while judging.
+struct Proc {
+    seed: u64,
+    thorough: bool,
+    /// requests on the packages of earlier scripts, in order
+    log: Vec<ProcReq>,
+    /// violation classes whose first instance was examined in fresh processes ↦ the dependence found
+    class_dep: std::collections::BTreeMap<String, String>,
+    /// process histories that explained an earlier violation of this worker
+    found: Vec<Vec<ProcReq>>,
+    /// fresh-process trials left for this worker
+    budget: u32,
+}
+
+/// `[{script, env, index, requests: [{name, rust_type}…]}…]`: consecutive
+/// requests on one script share a package.
+fn proc_groups(fam: &[Entry], pc: &Proc, steps: &[ProcReq]) -> Value {
+    let mut groups: Vec<Value> = vec![];
+    let mut cur: Option<u64> = None;
+    for (idx, name, e, _) in steps {
+        if cur != Some(*idx) {
+            let (sc, _) = gen_script(fam, pc.seed, *idx, pc.thorough);
+            groups.push(json!({"index": idx, "env": sc.cx.env, "script": sc.src, "requests": []}));
+            cur = Some(*idx);
+        }
+        let g = groups.last_mut().unwrap();
+        g["requests"].as_array_mut().unwrap().push(json!({"name": name, "rust_type": fam[*e].show()}));
+    }
+    Value::Array(groups)
+}
+
+/// The answer a *fresh process* gives to the request described by `input`
+/// (`process_history`, `script`, `env`, `history`, `name`, `rust_type`).
+fn answer_in_fresh_process(input: &Value) -> Option<String> {
+    use std::io::Write;
+    use std::process::{Command, Stdio};
+    let exe = std::env::current_exe().ok()?;
+    let mut child = Command::new(exe).arg("answer").stdin(Stdio::piped()).stdout(Stdio::piped()).stderr(Stdio::null()).spawn().ok()?;
+    let text = input.to_string();
+    let mut stdin = child.stdin.take()?;
+    // the child reads all of stdin before it answers, so writing cannot block on its output
+    let w = std::thread::spawn(move || {
+        let _ = stdin.write_all(text.as_bytes());
+    });
+    let out = child.wait_with_output().ok()?;
+    let _ = w.join();
+    String::from_utf8_lossy(&out.stdout).lines().find_map(|l| l.strip_prefix("ANSWER ").map(|a| a.to_string()))
+}
+
+/// Execute a replay description in this process: the earlier packages of the
+/// process history, then the script, the earlier requests on its package, the
+/// request. Returns the canonical answer and a transcript.
+fn replay_here(fam: &[Entry], v: &Value) -> (String, Vec<String>) {
+    let mut lines = vec![];
+    let find = |ty: &str| fam.iter().find(|e| e.show() == ty).expect("rust type in family");
+    if let Some(groups) = v["process_history"].as_array() {
+        for (gi, g) in groups.iter().enumerate() {
+            let rt = runtime(g["env"].as_u64().unwrap_or(0) as usize);
+            let src = g["script"].as_str().unwrap_or("");
+            let Ok(Ok(mut pkg)) = compile(src, &rt) else {
+                lines.push(format!("earlier package {}: does not compile", gi + 1));
+                continue;
+            };
+            for r in g["requests"].as_array().map(|a| &a[..]).unwrap_or(&[]) {
+                let (hn, ht) = (r["name"].as_str().unwrap_or(""), r["rust_type"].as_str().unwrap_or(""));
+                let a = canon(&(find(ht).probe)(&mut pkg, hn));
+                if lines.len() < 40 {
+                    lines.push(format!("earlier package {} (script {}): get_function::<{ht}>({hn:?}) -> {a}", gi + 1, g["index"]));
+                }
+            }
+        }
+    }
+    let rt = runtime(v["env"].as_u64().unwrap_or(0) as usize);
+    let src = v["script"].as_str().expect("script");
+    let name = v["name"].as_str().expect("name");
+    let ty = v["rust_type"].as_str().expect("rust_type");
+    let mut pkg = FileTree::test_file("c04.roto", src, 0).compile(&rt).map_err(|e| e.to_string()).expect("compiles");
+    if let Some(h) = v["history"].as_array() {
+        for (i, r) in h.iter().enumerate() {
+            let (hn, ht) = (r["name"].as_str().unwrap_or(""), r["rust_type"].as_str().unwrap_or(""));
+            let a = canon(&(find(ht).probe)(&mut pkg, hn));
+            if lines.len() < 80 {
+                lines.push(format!("before {:>3}: get_function::<{ht}>({hn:?}) -> {a}", i + 1));
+            }
+        }
+    }
+    (canon(&(find(ty).probe)(&mut pkg, name)), lines)
+}
+
+fn rt_ctors(r: &RT, out: &mut BTreeSet<&'static str>) {
+    match r {
+        RT::Leaf(_) => {}
+        RT::Val(_) => {
+            out.insert("Val");
+        }
+        RT::Opt(t) => {
+            out.insert("Option");
+            rt_ctors(t, out);
+        }
+        RT::List(t) => {
+            out.insert("List");
+            rt_ctors(t, out);
+        }
+        RT::Res(a, b) => {
+            out.insert("Result");
+            rt_ctors(a, out);
+            rt_ctors(b, out);
+        }
+        RT::Ver(a, b) => {
+            out.insert("Verdict");
+            rt_ctors(a, out);
+            rt_ctors(b, out);
+        }
+    }
+}
+
+fn entry_ctors(e: &Entry) -> BTreeSet<&'static str> {
+    let mut s = BTreeSet::new();
+    for r in e.args.iter().chain(std::iter::once(&e.ret)) {
+        rt_ctors(r, &mut s);
+    }
+    s
+}
+
+/// A wrong answer `wrong` was seen for the request in `base` (which carries
+/// the package-level history the in-process minimisation found). Decide in
+/// fresh processes what it depends on and return the replay input that
+/// reproduces it from a cold start, with the kind of dependence:
+///  * `none` — the request (with its package history) alone;
+///  * `package-history` — earlier requests on the same package that the
+///    in-process minimisation could not see (this process was already warm);
+///  * `one-earlier-request-in-the-process` — one request on another package;
+///  * `earlier-requests-in-the-process` — a run of them (shortest found);
+///  * `not-reproduced-in-a-fresh-process`.
+fn minimise_process_history(fam: &[Entry], pc: &mut Proc, base: &Value, pkg_prefix: &[Req], last: &Req, wrong: &str) -> (Value, &'static str) {
+    let with = |ph: Value, hist: Option<&[Req]>| -> Value {
+        let mut v = base.clone();
+        v["process_history"] = ph;
+        if let Some(h) = hist {
+            v["history"] = Value::Array(h.iter().map(|(nm, e)| json!({"name": nm, "rust_type": fam[*e].show()})).collect());
+        }
+        v
+    };
+    let trial = |pc: &mut Proc, v: &Value| -> bool {
+        if pc.budget == 0 {
+            return false;
+        }
+        pc.budget -= 1;
+        answer_in_fresh_process(v).as_deref() == Some(wrong)
+    };
+    // 1. cold start, the package history as minimised in this process
+    let v0 = with(json!([]), None);
+    if trial(pc, &v0) {
+        return (v0, "none");
+    }
+    // 2. a process history that explained an earlier violation of this worker
+    for h in pc.found.clone() {
+        let v = with(proc_groups(fam, pc, &h), None);
+        if trial(pc, &v) {
+            return (v, if h.len() == 1 { "one-earlier-request-in-the-process" } else { "earlier-requests-in-the-process" });
+        }
+    }
+    // 3. cold start, everything asked before on this package
+    let full = with(json!([]), Some(pkg_prefix));
+    if trial(pc, &full) {
+        let want = entry_ctors(&fam[last.1]);
+        let mut seen = BTreeSet::new();
+        for r in pkg_prefix.iter().filter(|r| seen.insert(r.1) && !entry_ctors(&fam[r.1]).is_disjoint(&want)).take(10) {
+            let v = with(json!([]), Some(std::slice::from_ref(r)));
+            if trial(pc, &v) {
+                return (v, "package-history");
+            }
+        }
+        return (full, "package-history");
+    }
+    // 4. one earlier request on another package: the same request first, then the first
+    // request per Rust type that shares a type constructor with this one (granted ones first)
+    let want = entry_ctors(&fam[last.1]);
+    let mut cands: Vec<ProcReq> = vec![];
+    let mut seen = BTreeSet::new();
+    for r in pc.log.iter().filter(|r| r.1 == last.0 && r.2 == last.1).take(2) {
+        cands.push(r.clone());
+    }
+    for pass in 0..2 {
+        for r in pc.log.iter() {
+            let granted = r.3 == "ok";
+            let reached = !(r.3.starts_with("dne") || r.3.starts_with("arity"));
+            if ((pass == 0 && granted) || (pass == 1 && reached && !granted)) && !entry_ctors(&fam[r.2]).is_disjoint(&want) && seen.insert((pass, r.2)) {
+                cands.push(r.clone());
+            }
+            if cands.len() >= 10 * (pass + 1) + 2 {
+                break;
+            }
+        }
+    }
+    for c in &cands {
+        let v = with(proc_groups(fam, pc, std::slice::from_ref(c)), None);
+        if trial(pc, &v) {
+            pc.found.push(vec![c.clone()]);
+            return (v, "one-earlier-request-in-the-process");
+        }
+    }
+    // 5. everything this process asked before; then the shortest prefix, then its shortest tail
+    let log = pc.log.clone();
+    let all = with(proc_groups(fam, pc, &log), Some(pkg_prefix));
+    if !trial(pc, &all) {
+        return (v0, "not-reproduced-in-a-fresh-process");
+    }
+    let (mut lo, mut hi) = (0usize, log.len());
+    while hi - lo > 1 && pc.budget > 0 {
+        let mid = (lo + hi) / 2;
+        let v = with(proc_groups(fam, pc, &log[..mid]), Some(pkg_prefix));
+        if trial(pc, &v) { hi = mid } else { lo = mid }
+    }
+    let k = hi;
+    let (mut lo, mut hi) = (0usize, k);
+    // invariant: log[lo..k] reproduces
+    while hi - lo > 1 && pc.budget > 0 {
+        let mid = (lo + hi) / 2;
+        let v = with(proc_groups(fam, pc, &log[mid..k]), Some(pkg_prefix));
+        if trial(pc, &v) { lo = mid } else { hi = mid }
+    }
+    let h = log[lo..k].to_vec();
+    let v = with(proc_groups(fam, pc, &h), Some(pkg_prefix));
+    let kind = if h.len() == 1 { "one-earlier-request-in-the-process" } else { "earlier-requests-in-the-process" };
+    pc.found.push(h);
+    (v, kind)
+}
+
 struct Judged {
     expected_ok: bool,
     class: Option<String>,
@@ -1486,7 +1728,8 @@ struct Judged {
     model: String,
 }
 
-fn run_script(fam: &[Entry], rts: &[Runtime<NoCtx>], drv: &mut Driver, rep: &mut Report, seed: u64, index: u64, thorough: bool) {
+fn run_script(fam: &[Entry], rts: &[Runtime<NoCtx>], drv: &mut Driver, rep: &mut Report, pc: &mut Proc, index: u64) {
+    let (seed, thorough) = (pc.seed, pc.thorough);
     let (script, mut pairs) = gen_script(fam, seed, index, thorough);
     let cx = script.cx.clone();
     let rt = &rts[cx.env];
@@ -1547,12 +1790,14 @@ fn run_script(fam: &[Entry], rts: &[Runtime<NoCtx>], drv: &mut Driver, rep: &mut
         (0..n).map(|k| (1u8, k)).chain((0..n).rev().map(|k| (2u8, k))).chain((0..n).map(|k| (3u8, k))).collect();
     let mut judged: Vec<Option<Judged>> = (0..n).map(|_| None).collect();
     let mut log: Vec<Req> = vec![];
+    let mut answers_log: Vec<String> = vec![];
     for (round, k) in order {
         let pr = &pairs[k];
         let e = &fam[pr.entry];
         let real = (e.probe)(&mut pkg, &pr.name);
         let real_s = canon(&real);
         log.push((pr.name.clone(), pr.entry));
+        answers_log.push(real_s.clone());
         rep.evaluations += 1;
         if judged[k].is_none() {
             let ans = &answers[k];
@@ -1597,25 +1842,50 @@ fn run_script(fam: &[Entry], rts: &[Runtime<NoCtx>], drv: &mut Driver, rep: &mut
                 "history": hist_json,
                 "history_kind": how,
             });
-            let dep = if how == "none" { String::new() } else { format!("history-dependent({how}):") };
-            if real == Outcome::Ok && !expected_ok {
-                rep.violation(
-                    "get_function returned a callable handle under a Rust type that is not the image of the script signature",
-                    &format!("{dep}accepts-wrong-signature:{kc}"),
-                    input,
-                );
+            let mut input = input;
+            let mut dep = if how == "none" { String::new() } else { format!("history-dependent({how}):") };
+            // The first instance of a violation class becomes a replay file: make sure it
+            // reproduces from a cold start, and find what else of this process it needs.
+            // the violation key without the dependence prefix
+            let body = if real == Outcome::Ok && !expected_ok {
+                format!("accepts-wrong-signature:{kc}")
             } else if real == Outcome::Panic {
-                rep.violation("get_function panicked instead of returning an error", &format!("{dep}panics:{kc}"), input);
+                format!("panics:{kc}")
             } else {
-                rep.violation(
-                    "get_function refused the true Rust signature of a script function",
-                    &format!(
-                        "{dep}refuses-true-signature:{}:{}",
-                        match &script.decls[pr.decl.unwrap()].kind { Kind::Fn => "fn", Kind::Filtermap(..) => "filtermap", Kind::Test => "test" },
-                        real_s.split(' ').next().unwrap_or("")
-                    ),
-                    input,
-                );
+                format!(
+                    "refuses-true-signature:{}:{}",
+                    match &script.decls[pr.decl.unwrap()].kind { Kind::Fn => "fn", Kind::Filtermap(..) => "filtermap", Kind::Test => "test" },
+                    real_s.split(' ').next().unwrap_or("")
+                )
+            };
+            let provisional = format!("{dep}{body}");
+            if let Some(d) = pc.class_dep.get(&provisional) {
+                // a later instance of a class already examined: it is reported under the same key
+                // (the first instance, which is the one examined, becomes the replay file)
+                dep = d.clone();
+                input["process_history_kind"] = json!("not-examined (a later instance of its class)");
+            } else {
+                let last = log.last().unwrap().clone();
+                let (v, phow) = minimise_process_history(fam, pc, &input, &log[..log.len() - 1], &last, &real_s);
+                input = v;
+                input["process_history_kind"] = json!(phow);
+                match phow {
+                    "none" => {}
+                    "package-history" => {
+                        input["history_kind"] = json!("earlier-requests-on-the-package(found-in-fresh-processes)");
+                        dep = "history-dependent(package):".to_string();
+                    }
+                    other => dep = format!("process-history-dependent({other}):"),
+                }
+                pc.class_dep.insert(provisional, dep.clone());
+            }
+            let key = format!("{dep}{body}");
+            if real == Outcome::Ok && !expected_ok {
+                rep.violation("get_function returned a callable handle under a Rust type that is not the image of the script signature", &key, input);
+            } else if real == Outcome::Panic {
+                rep.violation("get_function panicked instead of returning an error", &key, input);
+            } else {
+                rep.violation("get_function refused the true Rust signature of a script function", &key, input);
             }
         }
         if real_s != j.model {
@@ -1661,6 +1931,10 @@ fn run_script(fam: &[Entry], rts: &[Runtime<NoCtx>], drv: &mut Driver, rep: &mut
                     "redeclared_by_script": cx.shadow.iter().map(|s| s.0).collect::<Vec<_>>()}));
             }
         }
+    }
+    // what this package was asked is, for the scripts that follow, the history of the process
+    for ((name, e), a) in log.into_iter().zip(answers_log) {
+        pc.log.push((index, name, e, a));
     }
 }
 
@@ -1745,9 +2019,10 @@ fn main() {
                     );
                 }
             }
+            let mut pc = Proc { seed, thorough, log: vec![], class_dep: Default::default(), found: vec![], budget: 160 };
             for i in from..from + n {
                 println!("START {i}");
-                run_script(&fam, &rts, &mut drv, &mut rep, seed, i, thorough);
+                run_script(&fam, &rts, &mut drv, &mut rep, &mut pc, i);
             }
         }
         Some("gen") => {
@@ -1763,28 +2038,35 @@ fn main() {
             }
             return;
         }
-        Some("replay") => {
-            // {script, env, history: [{name, rust_type}…], name, rust_type}: compile, make the
-            // earlier requests on the same package, ask, compare with the oracle stored in the file
-            let v: Value = serde_json::from_str(&args[2]).expect("replay json");
+        Some("answer") => {
+            // the answer of this (fresh) process to a replay description on stdin
+            use std::io::Read;
+            let mut text = String::new();
+            std::io::stdin().read_to_string(&mut text).expect("stdin");
+            let v: Value = serde_json::from_str(&text).expect("replay json");
             let fam = family();
-            let env = v["env"].as_u64().unwrap_or(0) as usize;
-            let rt = runtime(env);
-            let src = v["script"].as_str().expect("script");
+            let (a, _) = replay_here(&fam, &v);
+            println!("ANSWER {a}");
+            return;
+        }
+        Some("replay") => {
+            // {process_history: [{script, env, requests}…], script, env, history: [{name, rust_type}…], name,
+            // rust_type}: in this fresh process make the requests on the earlier packages, compile the script, make
+            // the earlier requests on its package, ask, compare with the oracle stored in the file.
+            // `@path` reads the description from a file.
+            let text = match args[2].strip_prefix('@') {
+                Some(path) => std::fs::read_to_string(path).expect("replay file"),
+                None => args[2].clone(),
+            };
+            let v: Value = serde_json::from_str(&text).expect("replay json");
+            let fam = family();
             let name = v["name"].as_str().expect("name");
             let ty = v["rust_type"].as_str().expect("rust_type");
-            let find = |ty: &str| fam.iter().find(|e| e.show() == ty).expect("rust type in family");
-            let e = find(ty);
-            let mut pkg = FileTree::test_file("c04.roto", src, 0).compile(&rt).map_err(|e| e.to_string()).expect("compiles");
             println!("function : {}", v["function"].as_str().unwrap_or("-"));
-            if let Some(h) = v["history"].as_array() {
-                for (i, r) in h.iter().enumerate() {
-                    let (hn, ht) = (r["name"].as_str().unwrap_or(""), r["rust_type"].as_str().unwrap_or(""));
-                    let a = canon(&(find(ht).probe)(&mut pkg, hn));
-                    println!("before {:>3}: get_function::<{ht}>({hn:?}) -> {a}", i + 1);
-                }
+            let (real, lines) = replay_here(&fam, &v);
+            for l in lines {
+                println!("{l}");
             }
-            let real = canon(&(e.probe)(&mut pkg, name));
             let expected_ok = v["expected"].as_str() == Some("ok");
             println!("request  : get_function::<{ty}>({name:?})");
             println!("expected : {}", v["expected"].as_str().unwrap_or("?"));
